@@ -339,7 +339,8 @@ def binOf (s : State F) : Int :=
 /-- `if np.isfinite(val): ...` leaves the model's bin in `val_bin`.  With an empty `bins` only a non-finite value
     gets through (`hne`): a finite one reads `bins[0]` out of range, see `findBin_no_bins`. -/
 theorem findBin_refines (fuel : Nat) (s : State F) (nb : Nat) (hrun : s.ctl = .run)
-    (hnb : s.ienv "nbins" = nb) (hs : s.shp "bins" = [nb]) (hl : (s.fa "bins").length = nb) (hf : nb < fuel)
+    (hnb : s.ienv "nbins" = nb) (hs : s.shp "bins" = [nb]) (hl : (s.fa "bins").length = nb)
+    (hf : 1 ≤ nb → nb < fuel)
     (hne : 1 ≤ nb ∨ Fl.isfinite (s.fenv "val") = false) (hvb : s.ienv "val_bin" = -1) :
     (exec fuel findBin s).ctl = .run ∧
     (exec fuel findBin s).ienv "val_bin" = binOf s ∧
@@ -392,7 +393,7 @@ theorem findBin_refines (fuel : Nat) (s : State F) (nb : Nat) (hrun : s.ctl = .r
       cases h1 : atMost s ((nb : Int) - 1) with
       | true =>
         rw [exec_ite_true _ _ _ _ _ hok1 (by rw [hev1, h1])]
-        simpa using searchBlock_refines fuel s nb hrun hnb hs hl hf
+        simpa using searchBlock_refines fuel s nb hrun hnb hs hl (hf hnb1)
       | false =>
         rw [exec_ite_false _ _ _ _ _ hok1 (by rw [hev1, h1]), exec_skip]
         exact ⟨hrun, by simpa using hvb, ⟨rfl, rfl, rfl, rfl, rfl, rfl, fun _ _ => rfl⟩⟩
@@ -454,7 +455,8 @@ abbrev cellF (B NV : List F) (v : F) : F := Bin.cellG Fl.lt Fl.le Fl.isfinite Fl
     matters changes -/
 theorem cellBody_refines (fuel : Nat) (st : State F) (D B NV : List F) (rows cols nb nv y x : Nat)
     (hrun : st.ctl = .run) (he : Env D B NV rows cols nb nv st)
-    (hD : D.length = rows * cols) (hB : B.length = nb) (hNV : NV.length = nv) (hnv : nb ≤ nv) (hf : nb < fuel)
+    (hD : D.length = rows * cols) (hB : B.length = nb) (hNV : NV.length = nv) (hnv : nb ≤ nv)
+    (hf : 1 ≤ nb → nb < fuel)
     (hy : st.ienv "y" = y) (hx : st.ienv "x" = x) (hyr : y < rows) (hxc : x < cols)
     (hne : 1 ≤ nb ∨ Fl.isfinite (D.getD (y * cols + x) Fl.nan) = false) :
     (exec fuel cellBody st).ctl = .run ∧ Env D B NV rows cols nb nv (exec fuel cellBody st) ∧
@@ -560,7 +562,7 @@ theorem xLoop_refines (fuel : Nat) (st : State F) (D B NV : List F) (rows cols n
           rw [List.getD_eq_getElem?_getD, List.getElem?_eq_getElem (by omega)]
           simp
       obtain ⟨c1, c2, c3, c4⟩ := cellBody_refines fuel { s with ienv := setS s.ienv "x" (x : Int) } D B NV rows cols nb nv
-        y x hsrun (env_setI hse "x" x (by decide) (by decide) (by decide)) hD hB hNV hnv hf
+        y x hsrun (env_setI hse "x" x (by decide) (by decide) (by decide)) hD hB hNV hnv (fun _ => hf)
         (by simp [setS, hsy]) (by simp [setS]) hyr hx hne'
       rw [afterBody_run _ c1]
       refine ⟨c1, c2, c3, ?_⟩
